@@ -36,6 +36,8 @@ PT = {
 PT_ORDER = list(PT)
 # extra rule kinds only relevant here (comment inside the colour declaration)
 G.KINDS.setdefault("comment_in_decl", lambda: G.Item("comment_in_decl", [("margin", "0", False), "/* before */", ("color", "#777 /* tail */", False), "/* after */"]))
+G.KINDS.setdefault("comment_in_func_decl", lambda: G.Item("comment_in_func_decl", [("color", "rgb(119, 119, 119) /* was 40 */", False), ("background-color", "#fff", False)]))
+G.KINDS.setdefault("comment_before_value", lambda: G.Item("comment_before_value", [("color", "/* 50 */ #777", False)]))
 
 
 ROOT_KEYS = (O.sel_key(":root"), O.sel_key("html"))
@@ -360,7 +362,7 @@ def jobs(ctx):
     rot = ctx.phase * 3
     P = PT_ORDER[rot % len(PT_ORDER):] + PT_ORDER[:rot % len(PT_ORDER)]
     out = []
-    centre = ["lit_fail", "var_t", "root_literal", "with_noise", "important", "comment_in_decl"]
+    centre = ["lit_fail", "var_t", "root_literal", "with_noise", "important", "comment_in_decl", "comment_in_func_decl", "comment_before_value"]
     # (a) every passthrough item alone, before and after one adjusted rule
     for p in P:
         out.append(([("readable", "none")], [(0, PT[p])], S1))
@@ -378,7 +380,7 @@ def jobs(ctx):
             if not q:
                 out.append(([(a, "none"), (b, "supports")], [(1, PT[p1]), (2, PT[p2])], S1))
     # (c) every rule item alone and every ordered pair (no passthrough): structure of modified rules
-    K = G.ORDER + ["comment_in_decl"]
+    K = G.ORDER + ["comment_in_decl", "comment_in_func_decl", "comment_before_value"]
     for k in K:
         for wname in G.WRAPPERS:
             if k in ("root_literal", "html_literal") and wname != "none":
